@@ -350,8 +350,8 @@ func check(fatalf func(string, ...any), s *spec) (discarded bool) {
 			} else {
 				ws = []string{"80"}
 			}
-			if _, sup := supplied("X-Forwarded-Proto"); sup {
-				ws = []string{"80", "443"} // derived from the upstream-declared scheme or from the connection: both accepted
+			if sv, sup := supplied("X-Forwarded-Proto"); sup && (sv == "https" || sv == "wss") {
+				ws = append(ws, "443") // a secure scheme declared upstream may also decide the port
 			}
 		}
 		okv := false
